@@ -997,6 +997,41 @@ def c05_order(case):
     finally:
         reset_table()
 
+
+# ---------------------------------------------------------------------------
+# C02
+
+
+def c02_deriv(case):
+    from . import oderiv
+    if not set_table(case.get("table")):
+        return ok("table rejected")
+    try:
+        tab = sf.get_semantic_constraints()
+        x = case["selfies"]
+        toks = _tok(x)
+        if "".join(toks) != x:
+            return ok("not a well-formed symbol string")
+        d = oderiv.derive(toks, tab)
+        r = _dec(x)
+        if r[0] == "exc":
+            return bad("C02:exception", "decoder(%r) raised %s" % (x, r[1]))
+        if d.error is not None:
+            if r[0] != "DecoderError":
+                return bad("C02:accepts-outside-grammar", "decoder(%r) under %s returns %r although the derivation reaches %r (position %d), which is outside the grammar"
+                           % (x, _short(case.get("table")), r[1], d.error.sym, d.error.pos))
+            return ok()
+        if r[0] != "ok":
+            return bad("C02:rejects-inside-grammar", "decoder(%r) under %s raises DecoderError although every symbol the derivation reaches is in the grammar" % (x, _short(case.get("table"))))
+        out = r[1]
+        mol = oread.read_smiles(out) if out else oread.Mol()
+        pb = oderiv.compare_with_output(d, mol) if out else (None if not d.atoms else "empty output but the derivation yields atoms")
+        if pb:
+            return bad("C02:differs", "decoder(%r) under %s = %r: %s" % (x, _short(case.get("table")), out, pb))
+        return ok()
+    finally:
+        reset_table()
+
 # ---------------------------------------------------------------------------
 
 KINDS = {
@@ -1025,6 +1060,7 @@ KINDS = {
     "kekulize": c05_kekulize,
     "matching": c05_matching,
     "kek_order": c05_order,
+    "deriv": c02_deriv,
     "state_fn": lemma_state_fn,
     "ring_step": lemma_ring_step,
 }
